@@ -55,6 +55,11 @@ CHECKS = {
    technique="property-based testing (proptest): generated histories and blame queries; differential against an independent overlay of real `git blame --line-porcelain` and the notes, across all output formats",
    text="For generated histories (renames, merges, rewrites) and generated queries (file x revision x -L/-w/--ignore-rev/--ignore-revs-file x format) the harness computes the expected author of every final line from real git's line-porcelain blame (commit, original line, path in that commit) and the commit's note (own parser), and compares with `--json` and with the author column of the default and --show-prompt formats; porcelain, line-porcelain and incremental outputs must name the same commit per line as git's own output.",
    note="Reference = git 2.39.5 blame. `--json` blames HEAD, so older revisions are reached by detaching HEAD. -M/-C are outside the property's option list. File names containing a newline are excluded here (finding F6n makes their notes unreadable)."),
+ "C20": dict(
+   level="exploration", design="DESIGN.md §2 C20",
+   technique="structure-aware fuzzing by property-based generation (proptest): per-preset valid hook payload templates mutated structurally, crossed with generated file locations, repository layouts and delivery channel; validity oracle over exit status, stderr and every repository's working log",
+   text="For every agent preset (claude, codex, gemini, continue-cli, cursor, github-copilot, amp, ai_tab, agent-v1, droid, opencode, unknown name; pre- and post-edit events) a payload carrying every key any preset reads is mutated (truncation at any byte, key deletion, type swaps, nesting, duplicate key, 70 kB-3 MB strings, BOM, non-JSON, empty object) and sent by argument or stdin; path fields cover relative/absolute/`..`/symlink/missing/directory/outside/other-repository; layouts: single, nested, multi-repository workspace, sibling repositories, bare, none; transcript files and the Cursor/OpenCode/Amp side stores are valid, empty, garbage or missing. Oracle: exit 0, no panic banner, terminates; every working-log line is JSON, --show-working-log succeeds, every recorded file lies in the work tree of the log's repository and in no more deeply nested one, nothing is created outside repositories, a wrapped commit still succeeds.",
+   note="The property says 'only in the repository that contains the file', so the oracle judges where entries appear, not that an entry must appear (counted as a class instead). Hangs are reported as inconclusive (exit 2). Linked worktrees are not generated."),
  "C19": dict(
    level="exploration", design="DESIGN.md §2 C19",
    technique="property-based testing (proptest): generated histories; `git-ai stats --json` of every commit vs independent computations from git numstat, an own -U0 diff parse and the note",
